@@ -3,12 +3,14 @@
 #pragma once
 #include <fcntl.h>
 #include <signal.h>
+#include <sys/wait.h>
 #include <unistd.h>
 
 #include <rapidcheck.h>
 
 #include <algorithm>
 #include <functional>
+#include <sstream>
 #include <map>
 #include <string>
 #include <unordered_set>
@@ -188,11 +190,21 @@ static inline int skv_main(int argc, char **argv, Harness &h) {
     if (mode == "replay") {
         if (pos.empty()) { fprintf(stderr, "usage: replay FILE\n"); return 2; }
         std::string text = read_file(pos[0]);
-        Program p = parse(text);
-        if (p.empty()) { fprintf(stderr, "SKV-INFRA: empty or unreadable replay file %s\n", pos[0].c_str()); return 2; }
-        g_current_case = ser(p);
-        std::string r = h.run(p, st);
-        if (!r.empty()) { printf("SKV-FAIL: %s\n", r.c_str()); return 1; }
+        // a replay file holds one program, or several separated by a line "----": they are then executed in order
+        // in this one process (a witness for state that the library keeps between unrelated objects)
+        std::vector<std::string> parts; { std::string cur; std::istringstream is(text); std::string line;
+            while (std::getline(is, line)) { if (line == "----") { parts.push_back(cur); cur.clear(); } else { cur += line; cur += '\n'; } }
+            parts.push_back(cur); }
+        size_t ran = 0;
+        for (auto &part : parts) {
+            Program p = parse(part);
+            if (p.empty()) continue;
+            ++ran;
+            g_current_case = ser(p);
+            std::string r = h.run(p, st);
+            if (!r.empty()) { printf("SKV-FAIL: %s%s\n", parts.size() > 1 ? ("(program " + std::to_string(ran) + " of a sequence) ").c_str() : "", r.c_str()); return 1; }
+        }
+        if (!ran) { fprintf(stderr, "SKV-INFRA: empty or unreadable replay file %s\n", pos[0].c_str()); return 2; }
         printf("SKV-PASS digest=%016llx\n", (unsigned long long)st.last_digest);
         return 0;
     }
@@ -211,7 +223,11 @@ static inline int skv_main(int argc, char **argv, Harness &h) {
     long dump_index = kv.count("dump-index") ? atol(kv["dump-index"].c_str()) : -1;
     std::string corpus_dir = kv.count("corpus") ? kv["corpus"] : "";
     long corpus_n = kv.count("corpus-n") ? atol(kv["corpus-n"].c_str()) : 200;
+    // --isolate 1: every case runs in a forked child, so nothing a case leaves behind in the process (a static
+    // cache inside the library, say) can influence the verdict on a later case
+    bool isolate = kv.count("isolate") && kv["isolate"] == "1";
     std::string last_fail, last_msg;
+    std::vector<std::string> recent;
     auto gen = h.gen();
     bool ok = rc::check([&]() {
         Program p = *gen;
@@ -222,8 +238,36 @@ static inline int skv_main(int argc, char **argv, Harness &h) {
             write_file(corpus_dir + nm, g_current_case);
         }
         if (dump_index >= 0 && (long)st.evaluations == dump_index && kv.count("dump-path")) write_file(kv["dump-path"], g_current_case);
-        std::string r = h.run(p, st);
+        std::string r;
+        if (recent.size() >= 48) recent.erase(recent.begin());
+        recent.push_back(g_current_case);
+        if (isolate) {
+            int fd[2];
+            if (pipe(fd) != 0) RC_FAIL(std::string("pipe failed"));
+            fflush(stdout); fflush(stderr);
+            pid_t pid = fork();
+            if (pid == 0) {
+                close(fd[0]);
+                Stats dummy; dummy.shrinking = true;
+                std::string cr = h.run(p, dummy);
+                ssize_t w = write(fd[1], cr.data(), cr.size()); (void)w;
+                _exit(0);
+            }
+            close(fd[1]);
+            char buf[1024]; ssize_t n;
+            while ((n = read(fd[0], buf, sizeof buf)) > 0) r.append(buf, (size_t)n);
+            close(fd[0]);
+            int status = 0; waitpid(pid, &status, 0);
+            if (!WIFEXITED(status) || WEXITSTATUS(status) != 0) r = "the process died while executing this case in isolation (status " + std::to_string(status) + ")";
+            ++st.evaluations;
+        } else r = h.run(p, st);
         if (!r.empty()) {
+            if (!st.shrinking && !g_fail_path.empty()) {
+                // the cases that ran before this one in the same process, oldest first, then the failing one
+                std::string hist;
+                for (size_t k = 0; k < recent.size(); ++k) { hist += recent[k]; if (k + 1 < recent.size()) hist += "----\n"; }
+                write_file(g_fail_path + ".history", hist);
+            }
             st.shrinking = true;
             last_fail = g_current_case; last_msg = r;
             RC_FAIL(r);
